@@ -293,6 +293,8 @@ class AnnotateMutMod(Processor):
         annotate_modifications(molecule, self.modifications, self.mutations, self.resspec_counts)
         return molecule
     def run_system(self, system):
+        # The bookkeeping is per system: forget what an earlier system matched.
+        self.resspec_counts = []
         super().run_system(system)
         # A specification is only a problem if it matched in none of the
         # molecules of the system.
